@@ -3,6 +3,7 @@ package worlds
 import (
 	"fmt"
 	"io"
+	"reflect"
 	"strings"
 
 	"github.com/alttpo/snes/emulator"
@@ -111,7 +112,27 @@ func (a cpuA) FlagsP() byte      { return a.c.Flags() }
 func (a cpuA) SetOnWDM(f func(byte)) {
 	a.c.OnWDM = f
 }
-func (a cpuA) SetOnPC(m map[uint32]func()) { a.c.OnPC = m }
+
+// installHooks installs the caller's hooks the way hosts do: into the table the CPU already
+// has, if it has one (after clearing out what was put there before), else as a new table.
+// m == nil removes the caller's hooks.
+func installHooks(c *cpu65c816.CPU, m map[uint32]func()) {
+	if c.OnPC == nil {
+		c.OnPC = m
+		return
+	}
+	if m != nil && reflect.ValueOf(c.OnPC).Pointer() == reflect.ValueOf(m).Pointer() {
+		return
+	}
+	for k := range c.OnPC {
+		delete(c.OnPC, k)
+	}
+	for k, v := range m {
+		c.OnPC[k] = v
+	}
+}
+
+func (a cpuA) SetOnPC(m map[uint32]func()) { installHooks(a.c, m) }
 func (a cpuA) Trace(w io.Writer) {
 	var oa [100]byte
 	o := a.c.DisassembleCurrentPC(oa[:0])
